@@ -1,15 +1,45 @@
 (* C03 — Cyclomatic complexity equals the McCabe decision count.
-   Spec (Cfg/FlowSpec.v): decision points [dec_block] = each if and elif test, each for/while, each except handler,
-   each for clause and each for clause with at least one if of a statement-level comprehension (weight) ;
+
+   FULL STATEMENT (properties.jsonl): the complexity reported for a function is one plus its number of decision points,
+   where each if and elif test, each for/while loop, each except handler and EACH for or if clause of a statement-level
+   comprehension contributes exactly one; else/break/continue/return contribute nothing; decision points inside code
+   that pyscn itself reports as dead are not counted.  Independent of names, literals, comments, layout; risk level by
+   the configured thresholds.  As a formula:
+       forall body, c03_block body = true -> NoDup (map fst (fn_marks body)) ->
+                    complexity body = mccabe (dead_ids body) body.                                   (C03_mccabe)
+
+   Spec (Cfg/FlowSpec.v): decision points [dec_block] = each if and elif test, each for/while, each except handler (weight 1)
+   and, for a statement-level comprehension, [comp_weight] = 1 for each for clause + 1 for EACH if clause;
    mccabe dead body = 1 + weights of the decision points that are not among the statements reported dead.
-   Model (Cfg/Flow.v): [complexity] mirrors complexity.go on the CFG the builder produces.
+   (Until finding F8 was recorded, comp_weight had been written as "1 per for clause + 1 if the clause has any if",
+   i.e. it encoded the code's behaviour; it now is the property's reading.)
+   Model (Cfg/Flow.v): [complexity] mirrors complexity.go on the CFG the builder produces; for a comprehension
+   [comp_cx] = 1 per for clause + 1 per for clause that has at least one if, because processComprehension
+   (internal/analyzer/cfg_builder.go) creates ONE filter block per for clause whatever the number of its ifs.
    The property's construct list excludes with / match / raise / finally: [c03_block].
+
+   REFUTED (finding F8, open): C03_mccabe is FALSE of the faithful model.  C03_comp_if_refuted: the one-statement body
+   `_ = [x for x in xs if a if b]` (Comp 1 [2]) has complexity 3 and McCabe number 4; pyscn itself prints 3 for
+   `def f(xs): return_ = [x for x in xs if x if x > 1]` (and for three ifs).  C03_builder_comp_if_refuted: the same
+   for the graph-level model.
+
+   PROVED, for ALL bodies of the construct list (no size bound):
+   - C03_mccabe_up_to_extra_ifs: complexity body + surplus_ifs dead body = mccabe dead body, where
+     surplus_ifs (Cfg/FlowMcCabe.v) = sum over the comprehensions NOT in dead code and over their for clauses of
+     (number of ifs - 1, when >= 2): the code misses exactly the second and further if clauses, nothing else;
+   - C03_mccabe_iff_no_extra_ifs: complexity = mccabe exactly when that surplus is 0;
+   - C03_mccabe_partial: complexity = mccabe when every for clause of every statement-level comprehension of the
+     function has at most one if ([comps_single_if], decidable, syntactic; nested defs are functions of their own
+     exactly as in the spec); what is missing for the full statement is precisely F8;
+   - C03_mccabe_every_def_up_to_extra_ifs / _partial: the same for every definition of a module;
+   - C03_invariant, C03_risk: unchanged (they do not mention the spec).
 
    Link to the graph-level model Cfg/Builder.v (blocks, typed edges, loop/exception stacks, depth-first walk, the count
    of complexity.go: distinct reachable blocks with a conditional out-edge + exception edges out of reachable blocks + 1):
    PROVED FOR ALL BODIES of the construct list, no size bound (C03_builder_complexity_agrees,
-   C03_builder_complexity_eq, C03_builder_mccabe): [complexity_g (build body) = complexity body], hence the graph-level
-   count = 1 + live decision points.  Proof: Cfg/BuilderSim.v (the simulation carries a counting invariant: counted
+   C03_builder_complexity_eq): [complexity_g (build body) = complexity body] (model against model, not affected by F8),
+   hence C03_builder_mccabe_up_to_extra_ifs / C03_builder_mccabe_partial: the graph-level count + surplus_ifs = 1 + live
+   decision points.  Proof: Cfg/BuilderSim.v (the simulation carries a counting invariant: counted
    edges out of blocks labelled reachable = Flow's decision count of the processed prefix), Cfg/BuilderReg.v (on the
    construct list every block gets at most one ECondTrue edge and never an ECondFalse edge alone; needs the
    "current block has no out-edge yet" invariant of Cfg/BuilderFrame.v), Cfg/BuilderCx.v (DFS visits every block once;
@@ -18,15 +48,39 @@ From Coq Require Import NArith List.
 From PV Require Import Py.PyAST Cfg.Flow Cfg.FlowSpec Cfg.FlowMcCabe Cfg.Builder Cfg.BuilderBounded Cfg.BuilderCx.
 Import ListNotations.
 
-Theorem C03_mccabe : forall body,
+(* the exact relation: the code misses the second and further if clauses of each for clause of a live comprehension *)
+Theorem C03_mccabe_up_to_extra_ifs : forall body,
   c03_block body = true -> NoDup (map fst (fn_marks body)) ->
-  complexity body = mccabe (dead_ids body) body.
-Proof. exact complexity_is_mccabe. Qed.
+  complexity body + surplus_ifs (dead_ids body) body = mccabe (dead_ids body) body.
+Proof. exact complexity_plus_surplus_is_mccabe. Qed.
 
-Theorem C03_mccabe_every_def : forall m qn k0 body, In (qn, k0, body) (module_defs m) ->
+Theorem C03_mccabe_iff_no_extra_ifs : forall body,
   c03_block body = true -> NoDup (map fst (fn_marks body)) ->
+  (complexity body = mccabe (dead_ids body) body <-> surplus_ifs (dead_ids body) body = 0).
+Proof. exact complexity_is_mccabe_iff. Qed.
+
+(* the full equation C03_mccabe under the hypothesis that no for clause of a comprehension carries two ifs *)
+Theorem C03_mccabe_partial : forall body,
+  c03_block body = true -> NoDup (map fst (fn_marks body)) -> comps_single_if body = true ->
   complexity body = mccabe (dead_ids body) body.
-Proof. intros m qn k0 body _. exact (complexity_is_mccabe body). Qed.
+Proof. exact complexity_is_mccabe_single_if. Qed.
+
+(* the full statement is false: `_ = [x for x in xs if a if b]` (finding F8) *)
+Theorem C03_comp_if_refuted :
+  exists body, c03_block body = true /\ NoDup (map fst (fn_marks body)) /\
+               complexity body = 3 /\ mccabe (dead_ids body) body = 4 /\
+               complexity body <> mccabe (dead_ids body) body.
+Proof. exact complexity_is_mccabe_refuted. Qed.
+
+Theorem C03_mccabe_every_def_up_to_extra_ifs : forall m qn k0 body, In (qn, k0, body) (module_defs m) ->
+  c03_block body = true -> NoDup (map fst (fn_marks body)) ->
+  complexity body + surplus_ifs (dead_ids body) body = mccabe (dead_ids body) body.
+Proof. intros m qn k0 body _. exact (complexity_plus_surplus_is_mccabe body). Qed.
+
+Theorem C03_mccabe_every_def_partial : forall m qn k0 body, In (qn, k0, body) (module_defs m) ->
+  c03_block body = true -> NoDup (map fst (fn_marks body)) -> comps_single_if body = true ->
+  complexity body = mccabe (dead_ids body) body.
+Proof. intros m qn k0 body _. exact (complexity_is_mccabe_single_if body). Qed.
 
 (* independent of identifier names and of the lines the statements sit on *)
 Theorem C03_invariant : forall (f g : N -> N) body, complexity (rl_block f g body) = complexity body.
@@ -46,6 +100,26 @@ Example C03_example :
   c03_block body = true /\ complexity body = 3 /\ mccabe (dead_ids body) body = 3 /\ dead_ids body = [8; 9]%N.
 Proof. vm_compute. repeat split; reflexivity. Qed.
 
+(* the hypotheses of C03_mccabe_partial are satisfiable, with comprehensions: for clauses with no and with one if *)
+Example C03_partial_example :
+  let body := BCons (Comp 1 [1; 0]) (BCons (If 2 (BCons (Comp 3 [0; 1; 1]) BNil) ANil ONone) BNil) in
+  c03_block body = true /\ NoDup (map fst (fn_marks body)) /\ comps_single_if body = true /\
+  complexity body = 10 /\ mccabe (dead_ids body) body = 10.
+Proof. cbv zeta. split; [reflexivity|]. split; [repeat constructor; cbn; intuition discriminate|]. vm_compute. repeat split; reflexivity. Qed.
+
+(* a comprehension with surplus ifs in DEAD code does not disturb the equation (C03_mccabe_iff_no_extra_ifs is about live ones) *)
+Example C03_dead_surplus_example :
+  let body := BCons (Comp 1 [1; 0]) (BCons (Return 2) (BCons (Comp 3 [2; 3]) BNil)) in
+  c03_block body = true /\ NoDup (map fst (fn_marks body)) /\ comps_single_if body = false /\
+  surplus_ifs (dead_ids body) body = 0 /\ complexity body = 4 /\ mccabe (dead_ids body) body = 4.
+Proof. cbv zeta. split; [reflexivity|]. split; [repeat constructor; cbn; intuition discriminate|]. vm_compute. repeat split; reflexivity. Qed.
+
+(* three for clauses with 0, 2 and 3 ifs: the code counts 3 + 2, the property 3 + 5 *)
+Example C03_surplus_example :
+  let body := BCons (Comp 1 [0; 2; 3]) BNil in
+  comps_single_if body = false /\ complexity body = 6 /\ surplus_ifs (dead_ids body) body = 3 /\ mccabe (dead_ids body) body = 9.
+Proof. vm_compute. repeat split; reflexivity. Qed.
+
 (* UNBOUNDED: the complexity the graph-level model of cfg_builder.go + reachability.go + complexity.go computes equals the
    abstraction's decision count, for EVERY body of the construct list (if/elif/else, for/while with else,
    break/continue/return, try/except/else, statement-level comprehensions, nested defs/classes) whose break/continue
@@ -59,12 +133,28 @@ Theorem C03_builder_complexity_eq : forall body,
   lok_block false body = true -> c03_block body = true -> complexity_g (build body) = complexity body.
 Proof. exact complexity_agrees. Qed.
 
-(* with C03_mccabe: the graph-level count is 1 + the live decision points *)
-Theorem C03_builder_mccabe : forall body,
+(* with C03_mccabe_up_to_extra_ifs: the graph-level count is 1 + the live decision points, minus the surplus if clauses *)
+Theorem C03_builder_mccabe_up_to_extra_ifs : forall body,
   lok_block false body = true -> c03_block body = true -> NoDup (map fst (fn_marks body)) ->
+  complexity_g (build body) + surplus_ifs (dead_ids body) body = mccabe (dead_ids body) body.
+Proof.
+  intros body Hlok Hc3 ND. rewrite (complexity_agrees body Hlok Hc3). exact (complexity_plus_surplus_is_mccabe body Hc3 ND).
+Qed.
+
+Theorem C03_builder_mccabe_partial : forall body,
+  lok_block false body = true -> c03_block body = true -> NoDup (map fst (fn_marks body)) -> comps_single_if body = true ->
   complexity_g (build body) = mccabe (dead_ids body) body.
 Proof.
-  intros body Hlok Hc3 ND. rewrite (complexity_agrees body Hlok Hc3). exact (complexity_is_mccabe body Hc3 ND).
+  intros body Hlok Hc3 ND S1. rewrite (complexity_agrees body Hlok Hc3). exact (complexity_is_mccabe_single_if body Hc3 ND S1).
+Qed.
+
+(* the graph-level model on the F8 witness: one filter block for both ifs *)
+Theorem C03_builder_comp_if_refuted :
+  exists body, lok_block false body = true /\ c03_block body = true /\ NoDup (map fst (fn_marks body)) /\
+               complexity_g (build body) = 3 /\ mccabe (dead_ids body) body = 4.
+Proof.
+  exists comp_if_witness. split; [reflexivity|]. split; [reflexivity|]. split; [repeat constructor; intros []|].
+  split; vm_compute; reflexivity.
 Qed.
 
 (* both components of BuilderBounded.check_one (dead statements, complexity) for every body; the bounded theorem
@@ -72,11 +162,17 @@ Qed.
 Theorem C03_check_one_all : forall b, check_one b = true.
 Proof. exact check_one_all. Qed.
 
-Print Assumptions C03_mccabe.
+Print Assumptions C03_mccabe_up_to_extra_ifs.
+Print Assumptions C03_mccabe_iff_no_extra_ifs.
+Print Assumptions C03_mccabe_partial.
+Print Assumptions C03_comp_if_refuted.
 Print Assumptions C03_builder_complexity_agrees.
 Print Assumptions C03_builder_complexity_eq.
-Print Assumptions C03_builder_mccabe.
+Print Assumptions C03_builder_mccabe_up_to_extra_ifs.
+Print Assumptions C03_builder_mccabe_partial.
+Print Assumptions C03_builder_comp_if_refuted.
 Print Assumptions C03_check_one_all.
-Print Assumptions C03_mccabe_every_def.
+Print Assumptions C03_mccabe_every_def_up_to_extra_ifs.
+Print Assumptions C03_mccabe_every_def_partial.
 Print Assumptions C03_invariant.
 Print Assumptions C03_risk.
